@@ -219,7 +219,7 @@ def _arr(f):
     def g(s, o):
         if isinstance(o, np.ndarray) and o.shape != ():
             return NotImplemented
-        if isinstance(o, (list, tuple)):
+        if isinstance(o, (list, tuple)) or type(o).__name__ in ("SymComplex", "ImagAng"):
             return NotImplemented
         if isinstance(o, NaNMarker):
             return o
